@@ -3,18 +3,18 @@ empty is not claimed."""
 
 PROPS = {
     "C01": dict(
-        rules=["R-CALC", "R-SLOT", "R-ORDER", "R-REACH", "R-PROV", "R-ENTRY", "R-LISTAPI", "R-ID", "R-SNAP", "R-CHAIN"],
+        rules=["R-CALC", "R-SLOT", "R-ORDER", "R-REACH", "R-PROV", "R-ENTRY", "R-LISTAPI", "R-ID", "R-SNAP", "R-CHAIN", "R-SUMMARY"],
         decided="necessary conditions for incremental = from-scratch: rule/slot tables, def-before-use in the "
                 "schedule, class-level reachability for link edits, value-level provenance completeness for numeric "
                 "edits, single entry point for edits, no inherited list mutator, injective dedup ids, snapshot order",
         not_decided="the numeric equality edited-vs-rebuilt; instance-level reachability through pre-change links"),
     "C02": dict(
-        rules=["R-AGG", "R-DEG"],
+        rules=["R-AGG", "R-DEG", "R-ACCUM"],
         decided="structure of the aggregation: the four category dicts agree on keys, collections, attributes and "
                 "deduplication; every footprint-bearing class is covered; footprint = energy x intensity (degree rows)",
         not_decided="finiteness and sign of the values"),
     "C03": dict(
-        rules=["R-SHIFT", "R-FILL", "R-PERUP", "R-DEG", "R-DELAY"],
+        rules=["R-SHIFT", "R-FILL", "R-PERUP", "R-DEG", "R-DELAY", "R-ACCUM"],
         decided="index shift (freq=) not positional shift, zero-fill on series addition/multiplication, per-pattern "
                 "writer/reader collection agreement, linearity of load quantities in the traffic series",
         not_decided="the conservation identities themselves (floor/ceil hour arithmetic, totals)"),
